@@ -323,11 +323,11 @@ def tie_theorem_names(targets, tier):
 
 
 ASSUMPTIONS = [
-    "DEFECT in the unchanged tree (confirmed on the simulator; findings/C14-in-reset-lost-on-packet-ready.json/.diff): in "
-    "USBInTransferManager a reset_sequence strobe (ClearFeature(ENDPOINT_HALT) for this IN endpoint) that arrives in the cycle in which "
-    "WAIT_FOR_DATA queues a packet is overridden by the swap's `data_pid[0].eq(~data_pid[0])`; the first packet after the clear-halt then "
-    "carries DATA1 (or whatever follows the old toggle) instead of DATA0.  Model and ties use the repaired behaviour; ./check C14 passes "
-    "only with findings/C14-in-reset-lost-on-packet-ready.diff applied (independent of the C11 repair: tx.payload is not compared here)",
+    "DEFECT found by this check, repaired in /repo by commit 3b70630 (findings/C14-in-reset-lost-on-packet-ready.json/.diff): in "
+    "USBInTransferManager a reset_sequence strobe (ClearFeature(ENDPOINT_HALT) for this IN endpoint) that arrived in the cycle in which "
+    "WAIT_FOR_DATA queues a packet was overridden by the swap's `data_pid[0].eq(~data_pid[0])`; the first packet after the clear-halt then "
+    "carried DATA1 (or whatever follows the old toggle) instead of DATA0.  Model and ties use the repaired behaviour; the behaviour as "
+    "found is refuted in Properties/C14.v (C14_unfixed_violates)",
     "IN endpoints, environment: ACK and new_token strobes never coincide; the clear_endpoint_halt strobe naming this endpoint arrives "
     "only while none of its packets is on the wire or awaiting its handshake (it is produced at the ACK of the control transfer's "
     "status stage, which a token for endpoint 0 precedes).  Outside this assumption the module can lose the reset "
@@ -362,8 +362,8 @@ LEVEL_TEXT = ("Machine-checked proof, parametric for IN endpoints, per configura
               "CLEAR_FEATURE(ENDPOINT_HALT, recipient endpoint) and all-zero otherwise (any newer SETUP replaces the pending request; other "
               "requests, selectors, recipients and non-standard types never produce it), for all traces over the explicit input alphabet, "
               "without environment assumption.  (4) Checked, not proved: the same three monitors on simulator "
-              "traces at realistic sizes (IN 64/512, OUT 64/127..512/1023).  On the UNCHANGED tree the check reports a violation of the IN "
-              "rule (see ASSUMPTIONS); it passes with findings/C14-in-reset-lost-on-packet-ready.diff.")
+              "traces at realistic sizes (IN 64/512, OUT 64/127..512/1023).  The IN-rule defect this check found (see ASSUMPTIONS) is "
+              "repaired in /repo (3b70630).")
 LEVEL_NOTE = ("Trusted: Coq kernel + vm_compute, Amaranth elaboration, nir2coq.py/Netlist.v and harness/slice.py (validated each run against "
               "pysim), the harness-side export of expected_data_toggle.  The OUT rule and the decode have no parametric Coq model: their "
               "theorems are per tie configuration (any trace length, restricted data values); other sizes rest on the runtime monitors.  "
